@@ -3,6 +3,7 @@
 //        a: f harness stack allocator that poisons released stacks, d default allocator, p photon pooled allocator
 // thread ops: y yield   z usleep(10us)   m migrate self to the next vCPU   s sleep until interrupted (usleep(-1))
 //             (s sleeps 1 s of virtual time)   i<k> interrupt thread k   M<k> migrate thread k (must be READY on my vCPU) to the next vCPU
+//             I<v> interrupt the main (joining) thread of vCPU v
 //             a leading 'n' makes the thread non-joinable. Every joinable thread is joined by its creating vCPU's main thread.
 #include <photon/thread/thread.h>
 #include <photon/thread/stack-allocator.h>
@@ -17,7 +18,7 @@ struct PT { std::string ops; int os, idx; bool joinable; thread* th = nullptr; j
             int runs = 0, step = 0, on = -1; bool finished = false; bool joined = false; };
 struct St {
     std::vector<PT> pts; int nos = 0; bool ws = false; char alloc = 'f';
-    vcpu_base* vcpus[8] = {nullptr};
+    vcpu_base* vcpus[8] = {nullptr}; thread* mains[8] = {nullptr}; std::atomic<int> main_gone[8];
     std::atomic<int> go{0}, ready{0}, done{0}, finished_os{0};
     std::string log;
 };
@@ -50,6 +51,7 @@ static void* entry(void* arg) {
             case 's': thread_usleep(1000000); break;      // 1 s: an interrupt that arrives before the sleep began is (by design) not delivered
             case 'm': { int v = my_vcpu(); thread_migrate(CURRENT, G->vcpus[(v + 1) % G->nos]); break; }
             case 'i': { int k = p.ops[++i] - '0'; if (G->pts[k].th && !G->pts[k].finished) thread_interrupt(G->pts[k].th, EINTR); break; }
+            case 'I': { int k = p.ops[++i] - '0'; if (G->mains[k] && !G->main_gone[k].load()) { thread_interrupt(G->mains[k], EINTR); G->log += G->pts[0].finished ? 'F' : 'r'; } break; }
             case 'M': { int k = p.ops[++i] - '0'; int v = my_vcpu(); if (G->pts[k].th && !G->pts[k].finished) thread_migrate(G->pts[k].th, G->vcpus[(v + 1) % G->nos]); break; }
         }
     }
@@ -66,7 +68,7 @@ static void on_deadlock(const char* dump) {
 
 void pmc_run(const char* config) {
     St st; G = &st;
-    st.ws = config[0] == '1'; st.alloc = config[1];
+    st.ws = config[0] == '1'; st.alloc = config[1]; for (auto& x : st.main_gone) x = 0;
     { std::string cur; int os = 0;
       for (const char* c = config + 3;; c++) {
           if (*c == ',' || *c == '|' || *c == 0) {
@@ -87,7 +89,7 @@ void pmc_run(const char* config) {
     for (int os = 0; os < st.nos; os++) {
         char nm[16]; snprintf(nm, sizeof nm, "vcpu%d", os);
         ts.push_back(mvp::spawn_vcpu([os] {
-            G->vcpus[os] = get_vcpu();
+            G->vcpus[os] = get_vcpu(); G->mains[os] = CURRENT;
             uint64_t n0 = get_info(INFO_THREAD_NUM);
             for (auto& p : G->pts) if (p.os == os) {
                 p.th = thread_create(entry, &p, 64 * 1024, 0, (p.joinable ? THREAD_JOINABLE : 0) | (G->ws ? THREAD_ENABLE_WORK_STEALING : 0));
@@ -108,6 +110,7 @@ void pmc_run(const char* config) {
             // keep this vCPU alive (it may have to run migrated / stolen threads) until every thread is done
             int rounds = 0;
             while (G->done.load() < (int)G->pts.size()) { thread_usleep(5ull * 1000 * 1000); if (++rounds > 3) { mv_on_deadlock("threads did not finish within 15 s of virtual time"); } }
+            G->main_gone[os] = 1;      // no interrupts into the epilogue
             if (++G->finished_os == G->nos) pmc_window(0);
             while (G->finished_os.load() < G->nos) thread_usleep(5ull * 1000 * 1000);
             // vCPU thread counts back to the initial value (main + idler)
@@ -137,6 +140,9 @@ static const PmcConfig CFG[] = {
     {"0f:s|i0",           3, {2,3}, {0,0}, {0,0}, {0,0}, "cross-vCPU interrupt of a sleeper, then join"},
     {"0f:ny,ny|nm",       3, {1,2}, {0,0}, {0,0}, {0,0}, "non-joinable threads: stack released exactly once after finish"},
     {"0f:z|",             3, {1,2}, {0,0}, {0,0}, {0,0}, "thread finishing while its vCPU's main joins"},
+    {"0f:yI0y,y|",        3, {1,2}, {0,0}, {0,0}, {0,0}, "the joiner is interrupted while it waits in thread_join (same vCPU)"},
+    {"0f:yy|I0y",         3, {2,3}, {0,0}, {0,0}, {0,0}, "the joiner is interrupted from another vCPU"},
+    {"0f:mzy|yI0",        2, {2,2}, {0,0}, {0,0}, {0,0}, "joiner interrupted while its thread runs elsewhere"},
     {"0f:mym|ymy",        2, {1,2}, {0,0}, {0,0}, {0,0}, "ping-pong migration"},
     {"1f:m,yyy|",         3, {1,2}, {0,0}, {0,0}, {0,0}, "stealing: vCPU1 receives a migrated thread, then steals from vCPU0's run queue"},
     {"1f:m,yy,yy|",       3, {1,2}, {0,0}, {0,0}, {0,0}, ""},
